@@ -8,7 +8,7 @@
                                  largest variant; selector = index if n <= 2 else 2*(n-index)-1
                                  (cairo-lang-sierra-to-casm invocations/enm.rs get_variant_selector)
      snapshot                  : as the value
-     arrays                    : not comparable (pointers) -- the generator never returns them. *)
+     arrays, boxes             : not comparable (pointers) -- the generator never returns them. *)
 From C01 Require Export Ref Typing.
 
 Fixpoint tsize (t : ty) : Z :=
@@ -19,6 +19,7 @@ Fixpoint tsize (t : ty) : Z :=
       1 + (fix go (ts : list ty) : Z := match ts with [] => 0 | t :: r => Z.max (tsize t) (go r) end) vs
   | TArr _ => 2
   | TSnap t => tsize t
+  | TBox _ => 1
   end.
 
 Definition selector (n idx : nat) : Z :=
